@@ -1,4 +1,5 @@
 import ErgoVerif.Lemmas.Link
+import ErgoVerif.Generated.Order
 /-!
 # C13 — network FIFO between a pair of processes
 
@@ -143,6 +144,14 @@ theorem data_paths_wired :
       wireTable.any fun w => w.method == m && w.linkOperand == "from.ID" && w.wireOperand == "to.ID[1]" && w.keepReset) = true ∧
     (["SendProcessID", "CallProcessID"].all fun m =>
       wireTable.any fun w => w.method == m && w.linkOperand == "from.ID" && w.wireOperand == "from.ID" && w.keepReset) = true := by
+  decide
+
+/-- the `keep` flag of a modelled send is the process's own KeepNetworkOrder setting: every gen.MessageOptions literal in
+    node/process.go and node/meta.go takes the field from `p.keeporder` / `m.p.keeporder`, and no code path sets the
+    field of an options value to anything else afterwards (so an important-delivery send, a call, a forward and a
+    meta-process send are pinned to the link exactly like a plain send) -/
+theorem C13_code_shape_keeporder :
+    0 < ErgoVerif.Gen.Order.keepOrderFromSetting ∧ ErgoVerif.Gen.Order.keepOrderOther = [] := by
   decide
 
 /-! ### non-vacuity -/
